@@ -63,11 +63,20 @@ def _is_stride_len(t, recv):
 def stride_pos_in_range(ctx, bb, pos, recv, strict):
     """the position handed to Stride::index is below Stride::len(recv) at block bb:
     (a) a dominating strict comparison pos < len(recv); or
+    (c) the position is yielded by the half-open range a..len(recv); or
     (b) the stride is known to be non-empty there (some x < len(recv), len(recv) != 0 / > 0 / >= 1,
         or !is_empty(recv)) and pos is the constant 0 or exactly len(recv) - 1 (plain subtraction)."""
     from expr import nobb
     if any(_is_stride_len(s, recv) for s in strict):
         return True
+    # (c) the position is an element of the half-open range `a..Stride::len(recv)`
+    t = pos
+    if t[0] == "call" and t[1] == ("Iterator", "next") and tuple(t[3]) == ("v:Some", "f:0") and t[2]:
+        src = t[2][0]
+        while src[0] == "call" and src[1][1] in ("into_iter", "by_ref", "iter") and src[2]:
+            src = src[2][0]
+        if src[0] == "agg" and src[1] == "Range::Range" and len(src[2]) == 2 and _is_stride_len(src[2][1], recv):
+            return True
     nonempty = False
     for f in facts_at(ctx, bb):
         op = f[0]
